@@ -1623,6 +1623,16 @@ impl World {
                     return self.fail(&["C18"], "recaps-target-count", format!("re-encapsulation of '{}' targets {} rights, expected exactly the {} recoverable+publishable ones", orig.policy, enc2.count(), publishable.len()));
                 }
                 let hybrid = publishable.iter().all(|(r, _)| mm.keys[r].1);
+                // [C11] the flavour of a re-encapsulation follows its own targets, not the original's
+                if let Ok(w2) = ser(&enc2).map_err(|f| f.message).and_then(|b| WXEnc::decode(&b)) {
+                    self.wire_checks += 1;
+                    if w2.hyb != hybrid {
+                        return self.soft(&["C11", "C18"], "recaps-flavour", format!("re-encapsulation of '{}' is hybridized={}, but {} of its {} targets are hybridized rights", orig.policy, w2.hyb, if hybrid { "all" } else { "not all" }, publishable.len()));
+                    }
+                    if hybrid {
+                        self.events.insert("hybridized-recaps");
+                    }
+                }
                 if self.encs.len() >= self.max_encs {
                     self.encs.remove(0);
                 }
